@@ -163,6 +163,15 @@ CLAIMED = {
              "and not decided.",
         technique="CFG must-pass-through, def-use/slot rules on ast, effect analysis, linear-image provenance (homogeneity domain) for the difference map",
         ref="5 C18"),
+    "C19": dict(
+        text="An operator-table rule normalises the lambda of every arithmetic/comparison dunder of both pipeline classes to OP(self(args), other[(args)]) "
+             "and requires OP to be the dunder's operator with operands in order; reflected dunders of non-commutative operators must evaluate "
+             "other OP self; composition must nest self(other(...), scale) and return the inner pipeline's kind; the currying decorators must call "
+             "fn(scale, *args) / fn(img, scale, *args); unit typing of all decorated providers/converters proves nm parameters reach pixel-space "
+             "callees only as p/scale; the Gaussian provider's centre is proved equal to (n-1)/2 + shift/scale in affine normal form and its exponent "
+             "must be a sum of squares; mask converters dispatch on the sign of the radius. Resampling accuracy is not decided.",
+        technique="operator-table rule over lambda bodies (ast), unit typing and affine forms by abstract interpretation, structural slot rules",
+        ref="5 C19"),
 }
 
 NOT_APPLICABLE = {
